@@ -157,7 +157,7 @@ Decode(t, m, inp, pos, ctx, consts) ==
               LET avail == Min2(Len(inp), pos + sz)
                   win == SubSeq(inp, 1, avail)
                   r == DecodeMembers(t, m, win, pos, consts, 1, [names |-> << >>, vals |-> << >>, sizes |-> << >>, fl |-> {}], FALSE)
-              IN IF ~r.ok THEN r
+              IN IF ~r.ok THEN (IF avail < pos + sz /\ r.err = "decode" THEN ErrR("eof-or-decode") ELSE r)   \* the shortage may be noticed first
                  ELSE [r EXCEPT !.pos = avail, !.fl = r.fl \cup (IF avail < pos + sz THEN {"lax"} ELSE {})]
          ELSE \* dynamic union: members are read one after the other from the union's start; consumes up to the end of the last
               DecodeMembers(t, m, inp, pos, consts, 1, [names |-> << >>, vals |-> << >>, sizes |-> << >>, fl |-> {}], TRUE)
@@ -281,7 +281,9 @@ ZeroOf(t, m) ==
                         ELSE [k |-> "list", items |-> [j \in 1..n |-> ZeroOf(t.elem, m)]]
     [] t.k \in {"struct", "union"} ->
          [k |-> "struct", cls |-> t.name, names |-> [j \in 1..Len(t.fields) |-> t.fields[j].name],
-          vals |-> [j \in 1..Len(t.fields) |-> ZeroOf(t.fields[j].type, m)]]
+          vals |-> [j \in 1..Len(t.fields) |->
+                      IF t.fields[j].bits > 0 /\ t.fields[j].type.k # "enum" THEN IntZero   \* a bit-field is a plain integer
+                      ELSE ZeroOf(t.fields[j].type, m)]]
 
 \* byte-wise OR of two equally long byte strings
 OrBytes(x, y) == [i \in 1..Len(x) |-> BOr(x[i], y[i])]
